@@ -129,12 +129,20 @@ PROPS["C03"] = dict(
 
 PROPS["C17"] = dict(
     producers=[("pyvc.table_check", "table_items"), ("pyvc.table_check", "call_items")],
-    level="exploration",
-    technique="bounded differential check of every local operator against per-cell definitions (the list/dict-processing bodies are outside pyvc's subset); contract-level obligations only for the index bookkeeping (row-major nditer, reshape width, reducer table)",
-    not_decided=["per-cell bodies of the local operators (Python list / dict code): bounded only", "popularity's tie rule"],
-    assumptions=["np.nditer(ops, order='C') visits elements in row-major order; np.reshape(v, (-1, w))[r, c] = v[r*w + c]"],
+    level="proof",
+    technique="contract-based deductive verification of the per-cell loops extracted mechanically from the real operators (fragment "
+              "= last top-level for of the function; pyvc VCs -> z3): lesser/equal/greater_frequency (recursive counting specs, partition "
+              "lemma), lowest/highest_position (1-based first extreme), cell_stats (table entry applied to the cell's own row), rank (NaN "
+              "rule, membership, extremes); index bookkeeping (row-major nditer, reshape width, reducer table) on the normalised AST; "
+              "bounded differential check of all nine operators against per-cell definitions",
+    not_decided=["combine (dict of tuples, first-occurrence numbering) and popularity (Counter / tie rule): bounded only",
+                 "rank for 1 < ref < number of layers ('exactly ref-1 smaller values' needs a multiset model of sort): bounded only",
+                 "the reducers behind cell_stats' table entries (np.max, np.mean, ...) are uninterpreted functions of the row"],
+    assumptions=["np.nditer(ops, order='C') visits elements in row-major order; np.reshape(v, (-1, w))[r, c] = v[r*w + c]",
+                 "Python contracts assumed: min/max of a NaN-free non-empty sequence is a bounding element; seq.index(v) is the first equal position; "
+                 "seq.sort() leaves a non-decreasing rearrangement",
+                 "fragment extraction drops: argument validation, the nditer enumeration, np.array / np.reshape / DataArray wrapping"],
     trusted_base=[],
-    allow_no_contracts=True,
     bounded=[("c17_local_operators", {"quick": 30, "thorough": 300})],
 )
 
